@@ -230,5 +230,5 @@ func (s *RoundTrip) Run(env *core.Env, st *core.Stats) (vs []core.Violation) {
 }
 
 func strictKey(err error) string {
-	return core.Trunc(err.Error(), 48)
+	return structKey(err.Error(), 48)
 }
